@@ -7,6 +7,7 @@ import (
 	"encoding/hex"
 	"flag"
 	"fmt"
+	"hash/fnv"
 	"os"
 	"os/exec"
 	"path/filepath"
@@ -210,8 +211,13 @@ func c09Exec(c *Ctx, e *c09Env, id int, cs *c09Case) *c09ProcResult {
 	return res
 }
 
-// c09Judge applies the direct oracle to a process result; returns the outcome class for the distribution.
-func c09Judge(c *Ctx, r *c09ProcResult) string {
+func c09Failing(cls string) bool {
+	return cls == "hang" || cls == "crash" || cls == "abnormal" || cls == "session-dead"
+}
+
+// c09Classify is the direct oracle on one process result (pure): outcome class, and for failing
+// classes the signature and a description.
+func c09Classify(r *c09ProcResult) (cls, sig, what string) {
 	cs := r.cs
 	se := r.stderr
 	started := strings.Contains(se, "Entering interactive mode")
@@ -221,42 +227,84 @@ func c09Judge(c *Ctx, r *c09ProcResult) string {
 		if loc := c09Goro1Rx.FindStringIndex(se); loc != nil {
 			site = c09HangSite(se[loc[0]:])
 		}
-		c.Violation("C09/hang/"+site, fmt.Sprintf("pprof does not finish (killed after >= %v): %s", c09ProcTimeout, cs.Text), cs)
-		return "hang"
+		return "hang", "C09/hang/" + site, fmt.Sprintf("pprof does not finish (killed after >= %v): %s", c09ProcTimeout, cs.Text)
 	case c09PanicRx.MatchString(se) && c09GoroRx.MatchString(se):
-		site := c09PanicSite(se[c09PanicRx.FindStringIndex(se)[0]:])
 		first := se[c09PanicRx.FindStringIndex(se)[0]:]
-		if i := strings.IndexByte(first, '\n'); i > 0 {
-			first = first[:i]
-		}
-		c.Violation("C09/panic/"+site, fmt.Sprintf("pprof crashed (%s) on %s", c09Trunc(first, 200), cs.Text), cs)
-		return "crash"
+		site := c09PanicSite(first)
+		return "crash", "C09/panic/" + site, fmt.Sprintf("pprof crashed (%s)", c09Trunc(c09FirstLine(first), 200))
 	case r.exit < 0 || r.exit > 2:
-		c.Violation("C09/abnormal-exit/"+cs.Kind, fmt.Sprintf("pprof exit status %d: %s | %s", r.exit, cs.Text, c09Trunc(se, 300)), cs)
-		return "abnormal"
+		return "abnormal", "C09/abnormal-exit/" + cs.Kind, fmt.Sprintf("pprof exit status %d: %s | %s", r.exit, cs.Text, c09Trunc(se, 300))
 	}
 	if cs.Kind == "script" {
 		got := strings.Count(se, `unrecognized command: "zzsentinel`)
 		if started && (r.exit != 0 || got != r.nsent) {
-			c.Violation("C09/session/stops-answering", fmt.Sprintf("interactive session answered %d of %d probes, exit %d: %s | %s",
-				got, r.nsent, r.exit, cs.Text, c09Trunc(se[max(0, len(se)-300):], 300)), cs)
-			return "session-dead"
+			return "session-dead", "C09/session/stops-answering", fmt.Sprintf("interactive session answered %d of %d probes, exit %d: %s | %s",
+				got, r.nsent, r.exit, cs.Text, c09Trunc(se[max(0, len(se)-300):], 300))
 		}
 		if started {
-			return "session-ok"
+			return "session-ok", "", ""
 		}
-		return "load-error"
+		return "load-error", "", ""
 	}
 	if r.exit == 0 {
-		return "ok"
+		return "ok", "", ""
 	}
 	if strings.Contains(se, "usage:") || strings.Contains(se, "flag provided but not defined") || strings.Contains(se, "invalid value") || strings.Contains(se, "invalid boolean") {
-		return "flag-error"
+		return "flag-error", "", ""
 	}
 	if strings.Contains(se, "problem fetching source profiles") {
-		return "load-error"
+		return "load-error", "", ""
 	}
-	return "report-error"
+	return "report-error", "", ""
+}
+
+// c09Judge classifies a process result and reports a failing one as a violation (crashes are first
+// shrunk: arguments and script lines that are not needed for the same crash site are removed).
+func c09Judge(c *Ctx, r *c09ProcResult) string {
+	cls, sig, what := c09Classify(r)
+	cs := r.cs
+	if cls == "crash" {
+		site := strings.TrimPrefix(sig, "C09/panic/")
+		if c09TheEnv != nil && c.Replay == "" {
+			crashes := func(x *c09Case) bool {
+				c2, s2, _ := c09Classify(c09Exec(c, c09TheEnv, 2000000, x))
+				return c2 == "crash" && s2 == sig
+			}
+			small := *cs
+			small.Args = c09ShrinkList(cs.Args, func(a []string) bool { x := small; x.Args = a; return crashes(&x) })
+			small.Lines = c09ShrinkList(cs.Lines, func(l []string) bool { x := small; x.Lines = l; return crashes(&x) })
+			small.Text = fmt.Sprintf("pprof %q, script %q, env %q [shrunk from: %s]", unhexAll(small.Args), unhexAll(small.Lines), small.Env, c09Trunc(cs.Text, 200))
+			cs = &small
+		}
+		_ = site
+		what += " on " + cs.Text
+	}
+	if c09Failing(cls) {
+		c.Violation(sig, what, cs)
+	}
+	return cls
+}
+
+// c09ShrinkList removes elements of l one at a time (then repeats) while still(l) keeps holding.
+func c09ShrinkList(l []string, still func([]string) bool) []string {
+	for changed, rounds := true, 0; changed && rounds < 4; rounds++ {
+		changed = false
+		for i := 0; i < len(l); i++ {
+			cand := append(append([]string{}, l[:i]...), l[i+1:]...)
+			if still(cand) {
+				l, changed = cand, true
+				i--
+			}
+		}
+	}
+	return l
+}
+
+func c09FirstLine(s string) string {
+	if i := strings.IndexByte(s, '\n'); i >= 0 {
+		return s[:i]
+	}
+	return s
 }
 
 var c09PreflightCache = map[string]bool{}
@@ -339,7 +387,7 @@ func c09Tagfilter(c *Ctx, value string) {
 		c.Violation("C09/hang/tagfilter", "driver.PProf hangs on "+cs.Text, cs)
 		return
 	case run.Panic != "":
-		c.Violation("C09/panic/"+c09PanicSite(run.Panic), "driver.PProf panics on "+cs.Text+": "+c09Trunc(run.Panic, 200), cs)
+		c.Violation("C09/panic/"+c09PanicSite(run.Panic), "driver.PProf panics on "+cs.Text+": "+c09FirstLine(run.Panic), cs)
 		real = "panic"
 	case run.Err != nil:
 		real = "err"
@@ -577,7 +625,13 @@ func c09Session(c *Ctx, dflt string, lines []string) {
 		return
 	}
 	if run.Panic != "" {
-		c.Violation("C09/panic/"+c09PanicSite(run.Panic), "interactive session panics: "+c09Trunc(run.Panic, 200)+" on "+cs.Text, cs)
+		site := c09PanicSite(run.Panic)
+		lines = c09ShrinkList(lines, func(ls []string) bool {
+			r := c09PProf(p, []string{"-symbolize=none"}, append(append([]string{"o"}, ls...), "o"))
+			return r.Panic != "" && c09PanicSite(r.Panic) == site
+		})
+		cs.Lines, cs.Text = hexAll(lines), fmt.Sprintf("%q", lines)
+		c.Violation("C09/panic/"+site, "interactive session panics: "+c09FirstLine(run.Panic)+" on lines "+cs.Text, cs)
 		return
 	}
 	broken := "interactive_step_no_panic / parseCommandLine_no_panic / config_set_total (model of interactive.go, config.go no longer corresponds)"
@@ -744,7 +798,7 @@ func c09Locate(c *Ctx, file, buildID string, npaths int) {
 	c.Res.Count("locate "+cs.Text, buildID != "")
 	c.Res.Hit(fmt.Sprintf("locate/buildid-len=%d", min(len(buildID), 3)))
 	if run.Panic != "" {
-		c.Violation("C09/panic/"+c09PanicSite(run.Panic), "driver.PProf panics loading a profile with "+cs.Text+": "+c09Trunc(run.Panic, 160), cs)
+		c.Violation("C09/panic/"+c09PanicSite(run.Panic), "driver.PProf panics loading a profile with "+cs.Text+": "+c09FirstLine(run.Panic), cs)
 		return
 	}
 	model := c.Drv.Ask(fmt.Sprintf("locate 1 %d %s %s", npaths, hexTok([]byte(file)), hexTok([]byte(buildID))))
@@ -766,7 +820,7 @@ func c09SymMode(c *Ctx, mode string) {
 	run := c09PProf(p, []string{"-top", "-output=c09out", "-symbolize=" + mode}, nil)
 	c.Res.ModelCompared++
 	if run.Panic != "" {
-		c.Violation("C09/panic/"+c09PanicSite(run.Panic), "driver.PProf panics on "+cs.Text+": "+c09Trunc(run.Panic, 160), cs)
+		c.Violation("C09/panic/"+c09PanicSite(run.Panic), "driver.PProf panics on "+cs.Text+": "+c09FirstLine(run.Panic), cs)
 		return
 	}
 	unknown := strings.Count(run.UI.allErrs(), "ignoring unrecognized symbolization option")
@@ -876,7 +930,7 @@ func c09Web(c *Ctx, pb []byte, reqs []string, text string) {
 	}
 	run := c09PProf(p, []string{"-http=unused:1234", "-symbolize=none"}, nil)
 	if run.Panic != "" {
-		c.Violation("C09/panic/"+c09PanicSite(run.Panic), "driver.PProf -http panics: "+c09Trunc(run.Panic, 160)+" on "+text, cs)
+		c.Violation("C09/panic/"+c09PanicSite(run.Panic), "driver.PProf -http panics: "+c09FirstLine(run.Panic)+" on "+text, cs)
 		return
 	}
 	if run.Hang {
@@ -918,7 +972,7 @@ func c09Web(c *Ctx, pb []byte, reqs []string, text string) {
 		c.Res.Count("web "+cs.Profile+" "+rq, st == 200 || st == 400)
 		switch {
 		case pn != "":
-			c.Violation("C09/web/panic/"+c09PanicSite(pn), "web handler panics: "+c09Trunc(pn, 160)+" on "+one.Text, &one)
+			c.Violation("C09/web/panic/"+c09PanicSite(pn), "web handler panics: "+c09FirstLine(pn)+" on "+one.Text, &one)
 			c.Res.Hit("web/panic")
 		case hang:
 			c.Violation("C09/hang/"+hsite, "web handler does not answer within "+c09InprocTimeout.String()+": "+one.Text, &one)
@@ -968,66 +1022,93 @@ func runC09(c *Ctx) {
 	want := func(ph string) bool { return only == "" || strings.Contains(","+only+",", ","+ph+",") }
 	rCamp, rt, rs, rw := r.Fork(), r.Fork(), r.Fork(), r.Fork()
 
-	// ---- campaign cases for the real binary run in the background while the in-process parts run
+	// ---- campaign cases for the real binary: generated by one feeder goroutine (sole user of rCamp,
+	// so the stream is deterministic), executed by a pool of workers while the in-process parts run;
+	// only the verdicts (and the failing cases) are kept
 	nCLI, nScript := 4000*scale, 1800*scale
-	var cases []*c09Case
 	if !want("cli") {
 		nCLI = 0
 	}
 	if !want("script") {
 		nScript = 0
 	}
-	for i := 0; i < nCLI+nScript; i++ {
-		fr := rCamp.Fork()
-		// separate streams: short build ids / int64-overflowing tag ranges only in every 8th case each
-		shortBID, big, xlines := i%8 == 3, i%8 == 5, i%8 == 6
-		p := c09Profile(fr, shortBID, xlines)
-		pb := c09ProfileBytes(p)
-		if pb == nil {
-			continue
-		}
-		types := c09TypeNames(p)
-		cs := &c09Case{Profile: hex.EncodeToString(pb), N: i}
-		if fr.Chance(25) {
-			cs.Env = []string{"PPROF_BINARY_PATH=" + fr.Pick([]string{e.tmp + "/home", ":", "/nonexistent", e.tmp + "/home:" + e.tmp + "/cfg", "relative/dir", e.tmp + "/emptybin"})}
-		}
-		if i < nCLI {
-			cs.Kind = "cli"
-			args := c09CLIArgs(fr, types, big)
-			cs.Args = hexAll(args)
-			cs.Text = fmt.Sprintf("pprof %q <profile %s> env=%q", args, describe(p), cs.Env)
-		} else {
-			cs.Kind = "script"
-			var lines []string
-			for j, n := 0, 5+fr.Intn(20); j < n; j++ {
-				lines = append(lines, c09ScriptLine(fr, types, big, false))
-			}
-			if fr.Chance(30) {
-				cs.Args = hexAll([]string{fr.Pick([]string{"-symbolize=none", "-nodecount=3", "-focus=main", "-tagfocus=1:", "-lines", "-sample_index=0", "-trim=false", "-call_tree"})})
-			}
-			cs.Lines = hexAll(lines)
-			cs.Text = fmt.Sprintf("interactive script %q args=%q <profile %s> env=%q", lines, unhexAll(cs.Args), describe(p), cs.Env)
-		}
-		cases = append(cases, cs)
+	type verdict struct {
+		kind, cls, key string
+		res            *c09ProcResult // kept only when the case has to be reported
+		sample         string
 	}
-	results := make([]*c09ProcResult, len(cases))
-	var wg sync.WaitGroup
+	verdicts := make(chan verdict, 256)
+	var collected []verdict
+	var wg, wgc sync.WaitGroup
+	wgc.Add(1)
+	go func() {
+		defer wgc.Done()
+		for v := range verdicts {
+			collected = append(collected, v)
+		}
+	}()
 	if c.Pprof != "" {
-		work := make(chan int)
+		type job struct {
+			i  int
+			cs *c09Case
+		}
+		work := make(chan job)
 		for w := 0; w < 14; w++ {
 			wg.Add(1)
 			go func() {
 				defer wg.Done()
-				for i := range work {
-					results[i] = c09Exec(c, e, i, cases[i])
+				for j := range work {
+					res := c09Exec(c, e, j.i, j.cs)
+					cls, _, _ := c09Classify(res)
+					h := fnv.New64a()
+					h.Write([]byte(j.cs.Kind + j.cs.Profile + strings.Join(j.cs.Args, " ") + strings.Join(j.cs.Lines, " ")))
+					v := verdict{kind: j.cs.Kind, cls: cls, key: fmt.Sprintf("%s %x", j.cs.Kind, h.Sum64())}
+					if c09Failing(cls) {
+						v.res = res
+					}
+					if j.i < 3 {
+						v.sample = c09Trunc(j.cs.Text, 300)
+					}
+					verdicts <- v
 				}
 			}()
 		}
 		go func() {
-			for i := range cases {
-				work <- i
+			defer close(work)
+			for i := 0; i < nCLI+nScript; i++ {
+				fr := rCamp.Fork()
+				// separate streams: short build ids / int64-overflowing tag ranges / extreme line numbers
+				// only in every 8th case each
+				shortBID, big, xlines := i%8 == 3, i%8 == 5, i%8 == 6
+				p := c09Profile(fr, shortBID, xlines)
+				pb := c09ProfileBytes(p)
+				if pb == nil {
+					continue
+				}
+				types := c09TypeNames(p)
+				cs := &c09Case{Profile: hex.EncodeToString(pb), N: i}
+				if fr.Chance(25) {
+					cs.Env = []string{"PPROF_BINARY_PATH=" + fr.Pick([]string{e.tmp + "/home", ":", "/nonexistent", e.tmp + "/home:" + e.tmp + "/cfg", "relative/dir", e.tmp + "/emptybin"})}
+				}
+				if i < nCLI {
+					cs.Kind = "cli"
+					args := c09CLIArgs(fr, types, big)
+					cs.Args = hexAll(args)
+					cs.Text = fmt.Sprintf("pprof %q <profile %s> env=%q", args, describe(p), cs.Env)
+				} else {
+					cs.Kind = "script"
+					var lines []string
+					for j, n := 0, 5+fr.Intn(20); j < n; j++ {
+						lines = append(lines, c09ScriptLine(fr, types, big, false))
+					}
+					if fr.Chance(30) {
+						cs.Args = hexAll([]string{fr.Pick([]string{"-symbolize=none", "-nodecount=3", "-focus=main", "-tagfocus=1:", "-lines", "-sample_index=0", "-trim=false", "-call_tree"})})
+					}
+					cs.Lines = hexAll(lines)
+					cs.Text = fmt.Sprintf("interactive script %q args=%q <profile %s> env=%q", lines, unhexAll(cs.Args), describe(p), cs.Env)
+				}
+				work <- job{i, cs}
 			}
-			close(work)
 		}()
 	} else {
 		c.Res.Notes = append(c.Res.Notes, "no pprof binary: CLI campaign skipped")
@@ -1087,16 +1168,16 @@ func runC09(c *Ctx) {
 
 	// ---- collect the campaign
 	wg.Wait()
-	for i, res := range results {
-		if res == nil {
-			continue
+	close(verdicts)
+	wgc.Wait()
+	for _, v := range collected {
+		if v.res != nil {
+			c09Judge(c, v.res) // reports (and shrinks) the failing case
 		}
-		cls := c09Judge(c, res)
-		c.Res.Hit(cases[i].Kind + "/" + cls)
-		nontrivial := cls == "ok" || cls == "report-error" || cls == "session-ok"
-		c.Res.Count(cases[i].Kind+" "+cases[i].Profile+strings.Join(cases[i].Args, " ")+strings.Join(cases[i].Lines, " "), nontrivial)
-		if i < 3 {
-			c.Res.Sample(map[string]any{"kind": cases[i].Kind, "text": c09Trunc(cases[i].Text, 300), "class": cls})
+		c.Res.Hit(v.kind + "/" + v.cls)
+		c.Res.Count(v.key, v.cls == "ok" || v.cls == "report-error" || v.cls == "session-ok")
+		if v.sample != "" {
+			c.Res.Sample(map[string]any{"kind": v.kind, "text": v.sample, "class": v.cls})
 		}
 	}
 }
